@@ -53,6 +53,13 @@ def one_case(rng, tier):
     al = Alphabet(rng, boundary=True)
     case = Case()
     r = rng.random()
+    if r < 0.06:
+        # sub-terms with many derivative classes: emptiness and witnesses on the last classes
+        u, probes, pts = wide_term(rng, case)
+        for t_ in [u] + probes:
+            case.obs("empty %d" % t_); case.obs("getstr %d" % t_)
+        case.obs("mem %d %s" % (u, word([pts[-1]]))); case.obs("mem %d %s" % (probes[1], word([pts[-1]])))
+        return case.line()
     if r < 0.45:
         t = sem_empty(rng, case, al)
     elif r < 0.9:
